@@ -74,6 +74,68 @@ Fixpoint walk (fuel : nat) (v : N) (es : entries) (idx depth : N) {struct fuel} 
     end
   end.
 
+(* The same walk with the recursive call for the entry in an internal node's LEAF position
+   made at [depth] instead of [depth + 1] ("the leaf is on the same depth").  verifyProof never
+   checks that this entry IS a leaf, so internal nodes nested through the leaf position escape
+   the depth check: the variant the model must NOT be (refuted in ProofEntriesProofs.v). *)
+Fixpoint walk_leaf_same_depth (fuel : nat) (v : N) (es : entries) (idx depth : N) {struct fuel} : M (N * ptr) :=
+  match fuel with
+  | O => fail E_FUEL
+  | S f =>
+    if elen es <=? idx then fail E_PROOF_MALFORMED else
+    if maxProofDepth <? depth then fail E_PROOF_DEPTH else
+    e <- lift (eindex es idx) ;;
+    match e with
+    | None => ret (idx + 1, PNil)
+    | Some entry =>
+      if glen entry =? 0 then fail E_PROOF_MALFORMED else
+      k <- lift (index entry 0) ;;
+      if k =? proofEntryFull then
+        body <- lift (slice_from entry 1) ;;
+        n <- node_unmarshal body ;;
+        let pos := idx + 1 in
+        match n with
+        | NLeaf l => ret (pos, PLeaf l)
+        | NInternal nd =>
+          '(pos, lf) <-
+             (if v =? 0 then ret (pos, oleaf_ptr (ileaf nd))
+              else if v =? 1 then walk_leaf_same_depth f v es pos depth        (* <- depth, not depth + 1 *)
+              else lift Panic) ;;
+          '(pos, l) <- walk_leaf_same_depth f v es pos (depth + 1) ;;
+          '(pos, r) <- walk_leaf_same_depth f v es pos (depth + 1) ;;
+          ret (pos, PInt (ilbl nd) (ilabel nd) lf l r)
+        end
+      else if k =? proofEntryHash then
+        body <- lift (slice_from entry 1) ;;
+        h <- hash_unmarshal body ;;
+        ret (idx + 1, PHash h)
+      else fail E_PROOF_ENTRY
+    end
+  end.
+
+(* n internal nodes (empty label) nested through one child position: 0 = leaf (version 1
+   only), 1 = left, 2 = right; every other position holds a nil entry *)
+Definition chain_entry : option bytes := Some [1; 1; 0; 0; 2].
+Fixpoint chain_pos (v pos : N) (n : nat) : entries :=
+  match n with
+  | O => [None]
+  | S k =>
+      let sub := chain_pos v pos k in
+      if v =? 0 then
+        (if pos =? 2 then chain_entry :: None :: sub else chain_entry :: sub ++ [None])
+      else
+        (if pos =? 0 then chain_entry :: sub ++ [None; None]
+         else if pos =? 1 then chain_entry :: None :: sub ++ [None]
+         else chain_entry :: None :: None :: sub)
+  end.
+
+(* nesting (through any position) of the subtree a walk built *)
+Fixpoint ptr_nesting (p : ptr) : N :=
+  match p with
+  | PInt _ _ lf l r => 1 + N.max (ptr_nesting lf) (N.max (ptr_nesting l) (ptr_nesting r))
+  | _ => 0
+  end.
+
 (* enough fuel for a walk started at [depth]: calls happen at depths
    depth .. maxProofDepth+1 (the call at maxProofDepth+1 returns at :354) *)
 Definition walk_fuel (depth : N) : nat := N.to_nat (maxProofDepth + 2 - depth).
